@@ -31,7 +31,8 @@ AUG_SELF = ["o.x {a} {k}", "o.x {a} v", "o . x {a} {k}", "o.x{a}{k}", "o.x {a} o
 CLASSREAD = ["v = K.x", "v = getattr(K, 'x')", "v = hasattr(K, 'x')", "v = type(o).x", "v = K.x {c} {k}",
              "v = [n for n in dir(K) if getattr(K, n, None) is None]"]
 # (h is a plain object; its ordinary attribute x merely has the same name)
-AUG_OTHER = ["v {a} o.x", "w[0] {a} o.x", "h.n {a} o.x", "v {a} o.x + {k}", "h.x {a} o.x", "h.x {a} o.x + p.x"]
+AUG_OTHER = ["v {a} o.x", "w[0] {a} o.x", "h.n {a} o.x", "v {a} o.x + {k}", "h.x {a} o.x", "h.x {a} o.x + p.x",
+             "h.x {a} getattr(o, 'x')"]
 LOCKFORM = ["_, _lock = o.x", "_, _lock  = o.x", "_, _lock = o.x\nwith _lock:\n  o.x = {k}",
             "_, _lock = o.x\nwith _lock:\n  o.x {a} {k}\n  v = o.x {c} {k}",
             "_, _lock = o.x\nwith _lock:\n  v {a} o.x"]
